@@ -170,3 +170,14 @@ pub(crate) fn stub_actor_from_vec(b: Vec<u8>) -> ActorId {
     std::mem::forget(b);
     a
 }
+
+/// An ActorId of `len` bytes (all 0x5a) built directly in its representation (inline up to 16 bytes,
+/// heap beyond), so that its length is a constant for the solver.
+#[allow(dead_code)]
+pub(crate) fn actor_of_len(len: usize) -> ActorId {
+    if len <= 16 {
+        ActorId(TinyVec::Inline(tinyvec::ArrayVec::from_array_len([0x5a; 16], len)))
+    } else {
+        ActorId(TinyVec::Heap(vec![0x5a; len]))
+    }
+}
